@@ -105,7 +105,10 @@ impl TypeSpace {
                         const_value: None,
                         subschemas: None,
                         number: _,
-                        string: _,
+                        // Length or pattern constraints restrict which of
+                        // the values are admitted; the string enum
+                        // conversion handles that, simple variants do not.
+                        string: None,
                         array: _,
                         object: _,
                         reference: None,
